@@ -1,6 +1,10 @@
 """C01 - sequential core programs mean what the documented C-like semantics say.
 
-Theorems: coq/C01/Properties_C01.v about the shared reference interpreter coq/Lang (Ref).
+Theorems: coq/C01/Properties_C01.v about the shared reference interpreter coq/Lang (Ref);
+coq/C01/Properties_C01_helpers.v about the interpreter's int64 helpers and coq/C01/Properties_C01_typedchain.v about the
+dispatch chain of the typed evaluator, stated about Gallina terms that translators/cxx_pure.py regenerates from clang's AST
+of helpers.cpp / binary_unary.cpp on EVERY run (coq/C01/Gen_Helpers.v, coq/C01/Gen_TypedChain.v, semantics coq/Cxx/Cxx.v):
+a change of the C++ text is re-translated and the theorems are re-checked against what the code says now.
 Tie: the extracted Ref (bin/lang_model) and /repo's `main` run the same generated programs
 (harness/gen_core.py): random statement programs, one expression in every evaluation context,
 and operand-level boundary sweeps through both arithmetic paths.
@@ -12,6 +16,7 @@ import os
 import common
 import gen_core
 import langrun
+import helpers_tie
 from common import rng_for
 
 PROP = "C01"
@@ -25,9 +30,31 @@ META = {
             "(nothing after it), division/remainder/shift laws, `continue` runs the for-update, compound assignment equals its desugaring, a whole-struct copy equals the member-by-member "
             "assignments and leaves both sides independent (a member store touches no other member and no plain variable), and the "
             "two arithmetic paths of the implementation (int64 wrap-around and x87 long-double) equal exact arithmetic whenever the exact result "
-            "fits int64. The interpreter is extracted to OCaml and run against /repo's main on generated programs printed from the same AST by "
+            "fits int64. The int64 helpers of the interpreter (ExpressionHelpers::evaluate_{arithmetic,comparison,logical,bitwise}_binary, "
+            "evaluate_simple_unary in helpers.cpp) are not modelled by hand: translators/cxx_pure.py re-translates clang's AST of their current "
+            "C++ text into terms of a deep embedding of C++17 integer expressions (coq/Cxx/Cxx.v: promotions, usual arithmetic conversions, "
+            "undefined behaviour as a result) on every run, and the theorems of Properties_C01_helpers.v are re-checked about those generated "
+            "terms: no undefined behaviour for any operator string and any int64 operands, equality with the reference arithmetic whenever "
+            "it is exact, the complete wrap-around closed form (eval_i64) for all int64 operands, rejection of unknown operators. "
+            "The same is done for the typed evaluator: the dispatch chain that ends evaluate_binary_op_typed (binary_unary.cpp) is cut out of "
+            "the function and re-translated on every run (coq/C01/Gen_TypedChain.v; long double as integers rounded to a 64-bit significand, "
+            "inputs of the chain as parameters, pure boolean observations of the operands as named flags, result builders uninterpreted), and "
+            "Properties_C01_typedchain.v proves about the generated chain which builder it calls with which values for all sixteen operators "
+            "and all int64 operands, that followed by the builders it is exactly eval_ld, and that it equals the reference arithmetic whenever "
+            "that is exact. "
+            "The interpreter is extracted to OCaml and run against /repo's main on generated programs printed from the same AST by "
             "the extracted printer; any difference in stdout or exit class is a violation with the program as replay.",
-    "note": "Trusted: Coq kernel, no axioms (Print Assumptions closed); extraction (ExtrOcamlBasic, ExtrOcamlString) + OCaml driver; the Ref "
+    "note": "Generated from the source on every run: coq/C01/Gen_Helpers.v (five functions of helpers.cpp) and coq/C01/Gen_TypedChain.v (the final "
+            "dispatch chain of evaluate_binary_op_typed; what the code before the chain establishes for integer operands - left_int = a, "
+            "left_quad = (long double) a, prefer_integral_result, no string / floating operand - and what the three result builders do with their "
+            "arguments are hand-read assumptions of those theorems); an unrecognised construct or a "
+            "theorem that no longer checks is a violation, after a search for a concrete failing operand pair that is replayed on the real binary "
+            "as a Cb program, under ASan+UBSan when the model reports undefined behaviour). Trusted for that part: clang 14's parser / semantic "
+            "analysis and its JSON AST dump, translators/cxx_pure.py (fails loudly on anything outside the fragment; drops only statement-level "
+            "error_msg/debug_msg calls), coq/Cxx/Cxx.v (hand-written reading of C++17 [expr], [conv]; implementation-defined points fixed as gcc/clang "
+            "do: two's complement conversions, arithmetic >> of negatives). evaluate_comparison_binary and evaluate_simple_unary are not called by "
+            "the interpreter any more (dead code): their theorems hold but no program reaches them. "
+            "Trusted: Coq kernel, no axioms (Print Assumptions closed); extraction (ExtrOcamlBasic, ExtrOcamlString) + OCaml driver; the Ref "
             "interpreter is the formal reading of docs/spec.md written by hand (no separate relational big-step yet); the tie is differential "
             "testing over generated programs, restricted to the fragment outside the recorded findings (known_findings/C01.json); structs have integer scalar / array members only (no nested structs, no by-value struct parameters); "
             "strings and interpolation contexts are not in Ref.",
@@ -113,17 +140,24 @@ def load_findings():
 
 def run(rep):
     seed, tier = rep.seed, rep.tier
+    # the int64 helpers and the typed evaluator's dispatch chain: re-translate their current C++ text (coq/C01/Gen_Helpers.v,
+    # coq/C01/Gen_TypedChain.v), then re-check every obligation
+    gen = helpers_tie.regenerate(rep)
     cq = common.coq_check_props(PROP)
     common.proof_coverage(rep, cq)
+    rep.coverage["trusted_base"] = rep.coverage.get("trusted_base", []) + [
+        "generated helpers: clang 14 AST dump (-ast-dump=json), translators/cxx_pure.py, coq/Cxx/Cxx.v (C++17 integer-expression semantics)"]
     if rep.tier == "thorough" and cq["ok"]:
         ok, axioms = common.coqchk(PROP)
         rep.coverage["coqchk"] = {"ok": ok, "context_summary": axioms[:1500]}
         if not ok:
             rep.violation("coqchk", {"output": axioms[-3000:]}, "coqchk rejects the compiled development", True)
-    if not cq["ok"]:
+    impl = common.build_impl("plain")
+    # translator failed / an obligation about the generated helpers broke: search for a concrete failing operand pair
+    handled = helpers_tie.after_check(rep, gen, cq, impl)
+    if not cq["ok"] and not handled:
         rep.violation("proof", {"theorem": cq["failed_theorem"], "log": cq["log"][-3000:]},
                       "proof obligation %s no longer checks" % cq["failed_theorem"], True)
-    impl = common.build_impl("plain")
 
     n_prog = 5000 if tier == "quick" else 60000
     n_ctx = 4000 if tier == "quick" else 40000
@@ -197,6 +231,8 @@ def run(rep):
         else:
             rep.notes.append("known finding %s no longer reproduces (fixed?)" % f["id"])
     rep.assumptions += [
+        "generated helpers: the C++ fragment semantics coq/Cxx/Cxx.v fixes the implementation-defined points as gcc/clang on x86-64 do "
+        "(LP64, two's-complement conversions, arithmetic right shift of negative values)",
         "programs on which Ref reports Undef (signed 64-bit overflow of an intermediate, shift count outside 0..63, INT64_MIN / -1) are not well-formed and are discarded (counted)",
         "the generator stays outside the shapes of the recorded findings (gen_core.Opts.avoid_*); each is replayed separately",
     ]
@@ -205,6 +241,18 @@ def run(rep):
 def replay(path):
     data = json.load(open(path))
     c = data["case"]
+    if "failing_input" in c:
+        f = c["failing_input"]
+        impl = common.build_impl(f.get("build", "plain"))
+        rc, o, e = common.run_cb(impl, f["program"], timeout=60)
+        print(f["program"])
+        print("%s path: %s %s %s  expected %s (reference %s)" % (f.get("path", "int64"), f["a"], f["op"], f["b"], f["expected"], f["reference"]))
+        print("main (%s build): rc=%s stdout=%r stderr=%s" % (f.get("build", "plain"), rc, o, e[-400:]))
+        exp = f["expected"]
+        ok = (rc == 0 and o.strip() == (str(exp[1]) if f.get("path") == "typed" else "1")) if exp[0] == "val" else (rc not in (0, 124, 134, 136, 139) and exp[1] in e)
+        if f.get("build") == "asan" and ("runtime error" in e or "AddressSanitizer" in e):
+            ok = False
+        return 0 if ok else 1
     impl = common.build_impl("plain")
     if "sexpr" in c:
         r, b = langrun.differential(impl, [c["sexpr"]])
